@@ -460,7 +460,20 @@ def install(E):
         return same(s, ctx.fresh_str("join"))
 
     def m_find(ctx, s, args, kw):
-        return VInt(z3.IndexOf(s.z, args[0].z, 0))
+        sub = args[0]
+        if sub.kind != s.kind:
+            raise PyRaise(VExc("TypeError", VStr("find arg"), origin="find"))
+        n = z3.Length(s.z)
+        if len(args) > 2 and not isinstance(args[2], VNoneT):
+            raise Unsupported("find() with an end argument")
+        if len(args) > 1 and not isinstance(args[1], VNoneT):
+            st = args[1]
+            if not isinstance(st, VInt):
+                raise PyRaise(VExc("TypeError", VStr("slice indices must be integers"), origin="find"))
+            start = z3.If(st.z < 0, z3.If(n + st.z < 0, z3.IntVal(0), n + st.z), st.z)
+            # Python: a start beyond the end finds nothing (not even the empty string)
+            return VInt(z3.If(start > n, z3.IntVal(-1), z3.IndexOf(s.z, sub.z, start)))
+        return VInt(z3.IndexOf(s.z, sub.z, 0))
 
     def m_encode(ctx, s, args, kw):
         h = M.get("codec.encode")
@@ -494,23 +507,31 @@ def install(E):
         E.use_assumption("PY-isdigit: str.isdigit() modelled for ASCII digits only")
         return VBool(z3.InRe(s.z, z3.Plus(z3.Range("0", "9"))))
 
-    for kind in ("str", "bytes"):
-        M[(kind, "removesuffix")] = m_removesuffix
-        M[(kind, "removeprefix")] = m_removeprefix
-        M[(kind, "partition")] = m_partition
-    M[("str", "isdigit")] = m_isdigit
+    def arity(fn, name, maxargs, kwnames=()):
+        """a model covers exactly the call shapes it implements: further arguments are Unsupported, never ignored"""
+        def guarded(ctx, s, args, kw):
+            if len(args) > maxargs or any(k not in kwnames for k in kw):
+                raise Unsupported(f"{name}() called with arguments the model does not implement ({len(args)} positional, keywords {sorted(kw)})")
+            return fn(ctx, s, args, kw)
+        return guarded
 
     for kind in ("str", "bytes"):
-        M[(kind, "startswith")] = m_startswith
-        M[(kind, "endswith")] = m_endswith
-        M[(kind, "strip")] = m_strip
-        M[(kind, "lstrip")] = m_lstrip
-        M[(kind, "rstrip")] = m_rstrip
-        M[(kind, "lower")] = m_lower
-        M[(kind, "split")] = m_split
-        M[(kind, "replace")] = m_replace
-        M[(kind, "join")] = m_join
-        M[(kind, "find")] = m_find
+        M[(kind, "removesuffix")] = arity(m_removesuffix, "removesuffix", 1)
+        M[(kind, "removeprefix")] = arity(m_removeprefix, "removeprefix", 1)
+        M[(kind, "partition")] = arity(m_partition, "partition", 1)
+    M[("str", "isdigit")] = arity(m_isdigit, "isdigit", 0)
+
+    for kind in ("str", "bytes"):
+        M[(kind, "startswith")] = arity(m_startswith, "startswith", 1)
+        M[(kind, "endswith")] = arity(m_endswith, "endswith", 1)
+        M[(kind, "strip")] = arity(m_strip, "strip", 1)
+        M[(kind, "lstrip")] = arity(m_lstrip, "lstrip", 1)
+        M[(kind, "rstrip")] = arity(m_rstrip, "rstrip", 1)
+        M[(kind, "lower")] = arity(m_lower, "lower", 0)
+        M[(kind, "split")] = arity(m_split, "split", 2, ("maxsplit",))
+        M[(kind, "replace")] = arity(m_replace, "replace", 2)
+        M[(kind, "join")] = arity(m_join, "join", 1)
+        M[(kind, "find")] = arity(m_find, "find", 3)
     M[("str", "encode")] = m_encode
     M[("bytes", "decode")] = m_decode
 
